@@ -637,6 +637,7 @@ func (a *Analysis) ruleDisposal() {
 		shape := regShape(r) + "/" + []string{"provider", "root", "scope", "failed-create", "failed-build", "unknown"}[ow.Kind]
 		if in.closeCount > 1 {
 			a.add("C10", "C10.once", shape+"/twice", "instance #%d (r%d out %d, owner %s) was closed %d times", in.ID, in.Reg, in.OutIdx, ow, in.closeCount)
+			a.add("C12", "C12.idem", ownerKind(ow)+"/closed-twice", "instance #%d (r%d out %d, owner %s) was closed %d times (tasks %v): a repeated or concurrent Close closed it again", in.ID, in.Reg, in.OutIdx, ow, in.closeCount, in.closeTask[:min(in.closeCount, 4)])
 		}
 		if in.closeCount == 0 {
 			switch {
